@@ -122,12 +122,14 @@ func (w *Watcher) Run(r *runner.TaskRunner) (err error) {
 	w.r = r
 
 	logrus.Debugf("starting watcher %s", w.name)
+	verifWatch("watch-start", w.name, "", "")
 	for _, path := range w.paths {
 		err = w.fsw.Add(path)
 		logrus.Debugf("watcher \"%s\" is waiting for events in %s", w.name, path)
 		if err != nil {
 			return err
 		}
+		verifWatch("watch-path", w.name, path, "")
 	}
 
 	go func() {
@@ -153,6 +155,7 @@ func (w *Watcher) Run(r *runner.TaskRunner) (err error) {
 					return
 				}
 				w.eventsWg.Add(1)
+				verifWatch("watch-event", w.name, event.Op.String(), event.Name)
 				go w.handle(event)
 				logrus.Debugf("%s: event \"%s\" in file \"%s\"", w.name, event.Op.String(), event.Name)
 				if event.Op == fsnotify.Rename {
